@@ -377,4 +377,102 @@ theorem parseQuantity_quiet_pct (vt ut : List Tok) (pct t0 : Tok) (s : BP α)
     refine Sat.bind (Sat.modify ?_)
     exact Sat.pure ⟨q2, hu⟩
 
+/-! ### a bare numeric quantity `{n}` is read quietly, without unit, under every extension set -/
+
+theorem scalingLock_at {qt : List Tok} {s0 s : BP α} (t0 : Tok) (tl : List Tok) (hqt : qt = t0 :: tl)
+    (h : At qt 0 s0 s) (hws : isWsComment t0.kind = false) (heq : t0.kind ≠ .eq) :
+    Sat (scalingLock (α := α)) s (fun r s' => r = none ∧ At qt 0 s0 s') := by
+  unfold scalingLock wsComments
+  refine Sat.bind (Sat.mono (consumeWhile_at isWsComment h [] qt rfl
+    (by intro t ht; cases ht) (by intro b hb; rw [hqt] at hb; simp at hb; subst hb; exact hws)) ?_)
+  rintro _ s1 ⟨-, h1⟩
+  simp only [List.length_nil, Nat.add_zero] at h1
+  refine Sat.bind (Sat.atK ?_)
+  have hk : ((s1.toks[s1.cur]?).map (·.kind) == some TK.eq) = false := by
+    rw [h1.1, h1.2.1, hqt]
+    simp only [List.getElem?_cons_zero, Option.map_some]
+    simpa using heq
+  rw [hk]
+  simp only [Bool.false_eq_true, if_false]
+  exact Sat.pure ⟨rfl, h1⟩
+
+/-- `parse_quantity` on value tokens without blank, word or `%`, not starting with `=`, that read as a
+    well-formed number or range: no event, no unit -/
+theorem parseQuantity_quiet_num (t0 : Tok) (tl : List Tok) (s : BP α)
+    (hws : isWsComment t0.kind = false) (heq : t0.kind ≠ .eq)
+    (hk : ∀ t ∈ t0 :: tl, t.kind ≠ .percent ∧ t.kind ≠ .word ∧ t.kind ≠ .ws)
+    (hval : ∃ v, numOrRange (α := α) (s.ext.has Gen.EXT_RANGE_VALUES) (t0 :: tl) = some (.ok v)) :
+    Sat (parseQuantity (α := α) (t0 :: tl)) s (fun r s' => Same s s' ∧ r.quantity.val.unit = none) := by
+  unfold parseQuantity
+  simp only [List.isEmpty_cons, Bool.false_eq_true, if_false]
+  refine Sat.bind (Sat.get ?_)
+  refine Sat.bind (Sat.set ?_)
+  have hat : At (t0 :: tl) 0 s ({ s with toks := t0 :: tl, cur := 0 } : BP α) := by
+    unfold At Same; exact ⟨rfl, rfl, rfl, rfl, rfl⟩
+  have hlast : ∃ l, (t0 :: tl).getLast? = some l ∧ l ∈ t0 :: tl := by
+    cases hl : (t0 :: tl).getLast? with
+    | none => simp at hl
+    | some l => exact ⟨l, rfl, List.mem_of_getLast? hl⟩
+  apply Sat.bind
+  apply Sat.mono (Q := fun (r : Option (ParsedQuantity α)) s' => r = none ∧ At (t0 :: tl) 0 s s')
+  · refine Sat.bind (Sat.hasExt ?_)
+    split
+    · apply withRecover_sat
+      unfold parseAdvancedQuantity
+      refine Sat.bind (Sat.allToks ?_)
+      have hany : (t0 :: tl).any (fun t => t.kind == .percent) = false := by
+        rw [List.any_eq_false]
+        intro t ht
+        simpa using (hk t ht).1
+      simp only [hany, Bool.false_eq_true, if_false]
+      refine Sat.bind (Sat.mono (scalingLock_at t0 tl rfl hat hws heq) ?_)
+      rintro _ s1 ⟨-, h1⟩
+      unfold wsComments
+      refine Sat.bind (Sat.mono (consumeWhile_at isWsComment h1 [] (t0 :: tl) rfl
+        (by intro t ht; cases ht) (by intro b hb; simp at hb; subst hb; exact hws)) ?_)
+      rintro _ s2 ⟨-, h2⟩
+      simp only [List.length_nil, Nat.add_zero] at h2
+      refine Sat.bind (Sat.mono (consumeWhile_at (fun k => k != .word) h2 (t0 :: tl) [] (by simp)
+        (by intro t ht; simpa using (hk t ht).2.1) (by intro b hb; cases hb)) ?_)
+      rintro _ s3 ⟨rfl, h3⟩
+      obtain ⟨l, hl, hlm⟩ := hlast
+      rw [hl]
+      dsimp only
+      have hlw : (l.kind != .ws) = true := by simpa using (hk l hlm).2.2
+      simp only [hlw, if_true]
+      refine Sat.pure ⟨trivial, ?_⟩
+      exact ⟨h3.1, rfl, h3.2.2⟩
+    · exact Sat.pure ⟨rfl, hat⟩
+  · rintro adv s1 ⟨rfl, h1⟩
+    dsimp only
+    apply Sat.bind
+    apply Sat.mono (Q := fun (r : ParsedQuantity α) s' => Same s s' ∧ r.quantity.val.unit = none)
+    · unfold parseRegularQuantity qvalue
+      refine Sat.bind (Sat.bind (Sat.mono (scalingLock_at t0 tl rfl h1 hws heq) ?_))
+      rintro _ s2 ⟨-, h2⟩
+      refine Sat.bind (Sat.mono (consumeWhile_at (fun k => k != .percent) h2 (t0 :: tl) [] (by simp)
+        (by intro t ht; simpa using (hk t ht).1) (by intro b hb; cases hb)) ?_)
+      rintro _ s3 ⟨rfl, h3⟩
+      refine Sat.bind (Sat.mono (parseValue_at h3 (t0 :: tl) t0 rfl (Or.inl hval)) ?_)
+      rintro v s4 h4
+      refine Sat.pure ?_
+      apply Sat.bind
+      apply Sat.mono (Q := fun (u : Option (Span × Text)) s' => Same s s' ∧ u = none)
+      · refine Sat.bind (Sat.peekK ?_)
+        have hpk : (s4.toks[s4.cur]?).map (·.kind) = none := by
+          rw [h4.1, h4.2.1]
+          simp
+        rw [hpk]
+        exact Sat.pure ⟨h4.2.2, rfl⟩
+      · rintro unit s5 ⟨q5, rfl⟩
+        refine Sat.bind (Sat.get ?_)
+        dsimp only
+        refine Sat.bind (Sat.get ?_)
+        refine Sat.bind (Sat.mono ((FQ.tokensSpanP _ _).sat s5) ?_)
+        rintro sp s6 q6
+        exact Sat.pure ⟨q5.trans q6, rfl⟩
+    · rintro r s2 ⟨q2, hu⟩
+      refine Sat.bind (Sat.modify ?_)
+      exact Sat.pure ⟨q2, hu⟩
+
 end Cook
